@@ -68,9 +68,6 @@ where
         offset: TextSize,
     ) -> Result<Self, ParseError> {
         let lxr = Self::lex_starts_at(source, offset);
-        #[cfg(feature = "full-lexer")]
-        let lxr =
-            lxr.filter_ok(|(tok, _)| !matches!(tok, Tok::Comment { .. } | Tok::NonLogicalNewline));
         Self::parse_tokens(lxr, source_path).map_err(|err| not_before(err, offset))
     }
     fn lex_starts_at(
@@ -418,13 +415,11 @@ pub fn parse_tokens(
     mode: Mode,
     source_path: &str,
 ) -> Result<ast::Mod, ParseError> {
-    let lxr = lxr.into_iter();
-    #[cfg(feature = "full-lexer")]
-    let lxr =
-        lxr.filter_ok(|(tok, _)| !matches!(tok, Tok::Comment { .. } | Tok::NonLogicalNewline));
     parse_filtered_tokens(lxr, mode, source_path)
 }
 
+/// Parses a token stream; comment and non-logical-newline tokens (only produced with the
+/// `full-lexer` feature) are skipped here, so that every entry point accepts the lexer's output.
 fn parse_filtered_tokens(
     lxr: impl IntoIterator<Item = LexResult>,
     mode: Mode,
@@ -433,7 +428,11 @@ fn parse_filtered_tokens(
     // The start marker is not part of the source. Place it (with an empty range) at the start of the
     // first real token, so that positions derived from it (the range of the `Mod` node with
     // `all-nodes-with-ranges`) follow the start offset of the source instead of being pinned to 0.
-    let mut lxr = lxr.into_iter().peekable();
+    let lxr = lxr.into_iter();
+    #[cfg(feature = "full-lexer")]
+    let lxr =
+        lxr.filter_ok(|(tok, _)| !matches!(tok, Tok::Comment { .. } | Tok::NonLogicalNewline));
+    let mut lxr = lxr.peekable();
     let marker_start = match lxr.peek() {
         Some(Ok((_, range))) => range.start(),
         _ => TextSize::default(),
